@@ -692,3 +692,84 @@ pub fn replay_now(case_v: &Value) -> Vec<String> {
     }
     runs.remove(0).0
 }
+
+
+// ---------------------------------------------------------------------------
+// Handles that outlive the code that created them: dropped by thread-local destructors while
+// a thread shuts down, or at process exit from a static. Run in a subprocess (a panic in a
+// thread-local destructor aborts the process).
+
+thread_local! {
+    static APP_SLOT: std::cell::RefCell<Vec<SharedString>> = const { std::cell::RefCell::new(Vec::new()) };
+}
+
+/// scenario: 0 = the application's thread-local is touched before the thread's first `new`;
+/// 1 = after it; 2 = the handle was created on another thread and moved in; 3 = the same on
+/// the main thread (destructors run at process exit). Prints "ok" when it gets to the end.
+pub fn shutdown_probe(scenario: usize) -> String {
+    let body = move |moved: Option<SharedString>| {
+        if scenario == 0 || scenario == 2 || scenario == 3 {
+            APP_SLOT.with(|s| s.borrow_mut().clear());
+        }
+        let a = SharedString::new(b"shutdown-probe-content".to_vec());
+        let b = SharedString::new(b"shutdown-probe-second".to_vec());
+        let c = a.clone();
+        APP_SLOT.with(|s| {
+            let mut s = s.borrow_mut();
+            s.push(a);
+            s.push(b);
+            if let Some(m) = moved {
+                s.push(m);
+            }
+        });
+        drop(c);
+        // one more interning on this thread after the slot holds the last handles
+        let _again = SharedString::new(b"shutdown-probe-content".to_vec());
+    };
+    if scenario == 3 {
+        body(None);
+        return "ok".into();
+    }
+    for _ in 0..3 {
+        let moved = if scenario == 2 { Some(SharedString::new(b"shutdown-probe-moved".to_vec())) } else { None };
+        let h = std::thread::spawn(move || body(moved));
+        if h.join().is_err() {
+            return "a worker thread panicked".into();
+        }
+    }
+    // everything the threads held is gone
+    let left = rbx_types::verif::string_cache_len();
+    if left != 0 {
+        return format!("{} entries left in the intern table after the threads ended", left);
+    }
+    "ok".into()
+}
+
+pub fn shutdown_probes() -> Vec<(String, String, Value)> {
+    let exe = std::env::current_exe().unwrap_or_else(|e| crate::evidence::machinery_failure(&format!("current_exe: {}", e)));
+    let mut out = Vec::new();
+    for scenario in 0..4usize {
+        let res = std::process::Command::new(&exe).arg("TLSPROBE").arg(scenario.to_string()).arg("x").output();
+        match res {
+            Err(e) => crate::evidence::machinery_failure(&format!("cannot start probe: {}", e)),
+            Ok(o) => {
+                let text = String::from_utf8_lossy(&o.stdout);
+                let last = text.lines().last().unwrap_or("").to_owned();
+                let what = ["application thread-local touched before the first new()", "application thread-local touched after the first new()", "a handle moved in from another thread", "handles owned by the main thread's thread-local at process exit"][scenario];
+                if !o.status.success() {
+                    let err = String::from_utf8_lossy(&o.stderr);
+                    out.push((
+                        "shutdown|abnormal-exit".to_owned(),
+                        format!("handles dropped by a thread-local destructor ({}): the process ends abnormally ({:?}): {}", what, o.status, err.lines().find(|l| l.contains("panicked") || l.contains("abort") || l.contains("cannot access")).unwrap_or("").chars().take(200).collect::<String>()),
+                        json!({"shutdown_probe": scenario}),
+                    ));
+                } else if last != "ok" {
+                    out.push(("shutdown|wrong-state".to_owned(), format!("handles dropped by a thread-local destructor ({}): {}", what, last), json!({"shutdown_probe": scenario})));
+                }
+            }
+        }
+    }
+    out.sort_by(|a, b| a.0.cmp(&b.0));
+    out.dedup_by(|a, b| a.0 == b.0);
+    out
+}
